@@ -24,6 +24,10 @@ def run(ctx):
         # … and name the matrix on which the real code died (with and without assertions)
         if not ctx.failing:
             ctx.crash_probe([h, "lu", "700", "18"], "lu-crash-probe", start_re=r"^L\b") or ctx.crash_probe([h2, "lu", "700", "18"], "lu-ndebug-crash-probe", start_re=r"^L\b")
+    # a copied / moved / re-assigned solver is a solver: the object histories of the linear-algebra containers (harness shared with C15)
+    ctx.also_props = ("C15",)
+    ctx.pipe([h, "objects", "400" if ctx.tier == "quick" else "2500", "14"], "objects", label="solver-object-histories")
+    ctx.also_props = ()
     # known finding F7: the absolute pivot test + std::exit
     ctx.pipe([h, "lu-exit"], "lu", label="lu-exit-probe")
     ctx.assumptions += ["std::unordered_map is modelled as a key-unique association list; results are proved independent of its order "
